@@ -30,9 +30,10 @@ def setup_manager(am: MD.AnalyticModel, Tn: float, high: str, low: str, M: int =
     m.registerModel(model)
     locH, locL = am.phase(high, Tn), am.phase(low, Tn)
     assert locH is not None and locL is not None, "phases must exist at Tn"
-    # phase guesses: deliberately not the exact minima (the manager has to find them)
-    gH = np.where(locH != 0, locH * guess_jitter[0], locH)
-    gL = np.where(locL != 0, locL * guess_jitter[1], locL)
+    # phase guesses: deliberately not the exact minima (the manager has to find them); displaced along the line joining
+    # the two phases, which is covariant under units, permutations, reflections and translations of field space
+    gH = locH + (guess_jitter[0] - 1.0) * (locH - locL)
+    gL = locL + (guess_jitter[1] - 1.0) * (locH - locL)
     ph = WallGo.PhaseInfo(temperature=Tn, phaseLocation1=WallGo.Fields(gH), phaseLocation2=WallGo.Fields(gL))
     if Tscale is None:
         Tscale = 0.1 * Tn
